@@ -420,13 +420,29 @@ def sym_isinstance(obj, cls):
 
 
 class SymRange:
-    """range() with a symbolic bound: may be handed to a ghost (e.g. axis ticks) but not iterated"""
+    """range() with a symbolic bound: may be handed to a ghost (e.g. axis ticks); iterating it unrolls the loop,
+    one fork per iteration (it ends only where the path condition bounds the range; the decision budget of a
+    path stops a runaway unrolling as Unsupported)"""
 
     def __init__(self, *args):
         self.args = args
 
+    def bounds(self):
+        a = self.args
+        if len(a) == 1:
+            return 0, a[0]
+        if len(a) == 2 or (len(a) == 3 and not is_sym(a[2]) and a[2] == 1):
+            return a[0], a[1]
+        raise Unsupported(f"range() with a step and a symbolic bound {self.args}")
+
     def __iter__(self):
-        raise Unsupported(f"iteration over range() with symbolic bound {self.args}")
+        lo, hi = self.bounds()
+        if is_sym(lo):
+            raise Unsupported(f"iteration over range() with symbolic start {self.args}")
+        i = lo
+        while bool(i < hi):
+            yield i
+            i += 1
 
     def __len__(self):
         raise Unsupported("len() of a symbolic range")
